@@ -1,7 +1,14 @@
 mod k1;
 mod k2;
+mod fp;
 mod k3;
+mod k4;
+mod tree;
+mod k5;
 mod planners;
+mod real;
+mod s07;
+mod s09;
 mod report;
 mod s04;
 mod util;
@@ -19,7 +26,11 @@ fn main() {
         "sqrtlim" => k1::sqrtlim(rest),
         "k2" => k2::run(rest),
         "k3" => k3::run(rest),
+        "k4" => k4::run(rest),
+        "k5" => k5::run(rest),
         "s04" => s04::run(rest),
+        "s07" => s07::run(rest),
+        "s09" => s09::run(rest),
         other => {
             eprintln!("unknown subcommand {}", other);
             std::process::exit(2);
